@@ -18,7 +18,7 @@ from dsim.c14 import launcher
 PROP = "C14"
 
 TIERS = {
-    "quick": {"targets": 320, "runs": 400, "ref_seeds": [0, 1, 20260924, 4242], "fresh_checks": 6, "redo": 8, "min_budget": 24,
+    "quick": {"targets": 320, "runs": 600, "ref_seeds": [0, 1, 20260924, 4242], "fresh_checks": 6, "redo": 8, "min_budget": 24,
               "chunk": 12, "budget_s": 420, "torchlib": False},
     "thorough": {"targets": 4000, "runs": 24000, "ref_seeds": [0, 1, 2, 3, 7, 1234567, 20260924, 4294967295], "fresh_checks": 40,
                  "redo": 250, "min_budget": 60, "chunk": 25, "budget_s": 3300, "torchlib": True, "per_family": 10, "external_families": 23, "composed_models": 100, "op_families": 200},
@@ -153,7 +153,7 @@ def gen_targets(seed: int, tier: dict, pools) -> list[dict]:
                 add(with_id({"kind": kind, "model": m, "family": "opmodel:" + opname, **copy.deepcopy(params)}))
     # operator families from the onnx backend node tests: a fully lifted (constant-foldable) single-node model and
     # variants differing in one attribute value, through the folding entry points
-    for i in range(tier.get("op_families", 8)):
+    for i in range(tier.get("op_families", 6)):
         r = rng.sub("opfam", i)
         members = pools.backend_attr_family(r)
         for m in members or []:
@@ -338,9 +338,9 @@ def gen_runs(seed: int, tier: dict, targets: list[dict], repo: str, failing: set
         ops = []
         # a fixed share of every batch walks the rule-parameter families and the stateful objects systematically
         # (round-robin, not sampled), as fail-then pairs: this is where "state survives a failed operation" lives
-        slot = r % 10   # 0,4,5: rule/operator families  1,3,6: long-lived objects  2: shared opset domain  7: script then model  8,9: sampled
-        if slot in (0, 4, 5) and gfams:
-            fam = gfams[(3 * (r // 10) + (0, 4, 5).index(slot)) % len(gfams)]
+        slot = r % 10   # 0,4,5,9: rule/operator families  1,3,6: long-lived objects  2: shared opset domain  7: script then model  8: sampled
+        if slot in (0, 4, 5, 9) and gfams:
+            fam = gfams[(4 * (r // 10) + (0, 4, 5, 9).index(slot)) % len(gfams)]
             pool = [t for t in by_family[fam] if _rule_bearing(t)]
             if fam == "gen:external" and len(pool) >= 2:
                 # models loaded without their data first, then models whose data is there (same relative location)
@@ -350,7 +350,7 @@ def gen_runs(seed: int, tier: dict, targets: list[dict], repo: str, failing: set
                 k = max(1, min(4, length // 2))
                 ops = [copy.deepcopy(t) for t in rng.sample(missing, min(k, len(missing)))]
                 ops += [copy.deepcopy(t) for t in rng.sample(present, min(max(1, length - len(ops)), len(present), 5))]
-            elif len(pool) >= 2 and slot == 5 and _family_objects(pool):
+            elif len(pool) >= 2 and slot in (5, 9) and _family_objects(pool):
                 # every member of the family through ONE long-lived object, one after the other (state keyed by the value
                 # names the members share); a third of them with an injected failure
                 template, env["template"] = "family_on_object", "family_on_object"
